@@ -208,7 +208,7 @@ def flat_fields(desc, cid):
 
 
 def gen_universe(rng, n_classes=5, max_fields=4, tns='urn:t', namespaces=('urn:t', 'urn:u', 'urn:v'), model_only=True, allow_sub_ns=False,
-                 shared_names=('id', 'name', 'value')):
+                 shared_names=('id', 'name', 'value'), twins=False):
     """classes with inheritance, XmlAttribute members, wrapped arrays, max_occurs > 1 members, customised
     primitives, simpleContent classes (one XmlData member + attributes), member names shared between classes"""
     classes = []
@@ -279,6 +279,16 @@ def gen_universe(rng, n_classes=5, max_fields=4, tns='urn:t', namespaces=('urn:t
                 if allow_sub_ns and rng.random() < 0.5:
                     pf[0]['sub_ns'] = 'urn:w'
         classes.append({'ns': ns, 'name': 'K%d' % i, 'parent': parent, 'fields': fields})
+    if twins and len(namespaces) > 1:
+        # two classes sharing a type name across namespaces (SOAP header blocks must be told apart by {namespace}name)
+        cand = [i for i in range(len(classes)) if i not in data_classes]
+        if cand:
+            q = rng.choice(cand)
+            i = len(classes)
+            fields = [{'name': 'f%d_%d' % (i, j), 'ty': ('leaf', gen_leaf_type(rng, model_only)), 'min': 0, 'max': 1,
+                       'nillable': True, 'kind': 'elem'} for j in range(rng.randint(1, 2))]
+            classes.append({'ns': rng.choice([n for n in namespaces if n != classes[q]['ns']]), 'name': classes[q]['name'],
+                            'parent': None, 'fields': fields, 'twin_of': q})
     # a shared name must stay unique in every flattened class
     desc = {'tns': tns, 'classes': classes}
     for cid in range(len(classes)):
@@ -331,10 +341,19 @@ def gen_service(rng, desc, n_methods=4, allow_headers=True, header_ns_tns=False,
         for j, p in enumerate(returns):
             p['name'] = 'r%d' % j
         ih = oh = []
+        twin = [i for i in hdr_classes if 'twin_of' in desc['classes'][i] and desc['classes'][i]['twin_of'] in hdr_classes]
+
+        def pick():
+            if twin and rng.random() < 0.6:          # same local name, different namespaces: both, or only one of the two
+                t = rng.choice(twin)
+                pair = [t, desc['classes'][t]['twin_of']]
+                rng.shuffle(pair)
+                return pair if rng.random() < 0.6 else pair[:1]
+            return rng.sample(hdr_classes, min(len(hdr_classes), rng.choice([1, 1, 2])))
         if allow_headers and hdr_classes and rng.random() < 0.5:
-            ih = rng.sample(hdr_classes, min(len(hdr_classes), rng.choice([1, 1, 2])))
+            ih = pick()
         if allow_headers and hdr_classes and rng.random() < 0.4:
-            oh = rng.sample(hdr_classes, min(len(hdr_classes), rng.choice([1, 1, 2])))
+            oh = pick()
         methods.append({'name': 'op%d' % i, 'style': style, 'params': params, 'returns': returns, 'in_header': ih, 'out_header': oh})
     return {'methods': methods}
 
